@@ -93,6 +93,20 @@ def _assigned_locals(node):
     return out
 
 
+def _atom_term(v):
+    while v[0] == "un" and v[1] == "!":
+        v = v[2]
+    if v[0] == "bin" and v[1] == "!=":
+        return ("bin", "==", v[2], v[3])
+    return v
+
+
+def _upd_base(t):
+    while isinstance(t, tuple) and t and t[0] == "upd":
+        t = t[1]
+    return t
+
+
 def _rooted_in_sym(t):
     while isinstance(t, tuple) and t and t[0] == "proj":
         t = t[1]
@@ -113,6 +127,7 @@ class Config:
         self.effect_calls = tuple(effect_calls)  # callee suffixes recorded as ("effect", name, args) events
         self.inline_exact = tuple(inline_exact)  # callee ids (short or full) that are inlined
         self.effect_re = None                    # compiled regex: callees (short path) recorded as effects
+        self.atom_terms = {}                     # condition key -> term of the (un-negated, `==`-normalised) atom
         self.error_paths = error_paths           # also follow the error exits of `?`
 
 
@@ -358,6 +373,7 @@ class Evaluator:
                 out.append((s, b))
                 continue
             key, pol = self.atom(v)
+            self.cfg.atom_terms[key] = _atom_term(v)
             for val in (True, False):
                 s2 = self.with_cond(s, key, val)
                 if s2 is not None:
@@ -537,6 +553,9 @@ class Evaluator:
                 root, fields = self._root_local(l)
                 env = dict(s.env)
                 old = env.get(root, ("sym", root))
+                if _rooted_in_sym(old) or (old[0] == "upd" and _rooted_in_sym(_upd_base(old))):
+                    # a field store through a (reference) parameter is visible to the caller: an effect
+                    s = self.emit(s, ("store", render(_upd_base(old)) + "".join("." + f for f in fields), v))
                 env[root] = ("upd", old, ".".join(f for f in fields if f != "value"), v)
                 s = s._replace(env=env)
             else:
@@ -1124,6 +1143,7 @@ def fn_paths(db, fid, effect_re=None, **cfgkw):
     cfg = Config(db, fid, **cfgkw)
     cfg.effect_re = effect_re
     ev = Evaluator(cfg)
+    fn_paths.last_atom_terms = cfg.atom_terms
     out = []
     for st, v in ev.run_fn(fn):
         if st.flow in ("diverge",):
